@@ -149,6 +149,9 @@ func NaturalLen(u uint32) int {
 // Nearest64 reports whether got is a multiple of 1/64 nearest to v (exact
 // ties may go either way). v must be finite.
 func Nearest64(v, got float32) bool {
+	if !finite(v) || !finite(got) {
+		return false
+	}
 	x := new(big.Rat).SetFloat64(float64(v))
 	g := new(big.Rat).SetFloat64(float64(got))
 	s := new(big.Rat).Mul(g, big.NewRat(64, 1))
